@@ -132,8 +132,8 @@ def c07(run):
     # a constructor argument that may be left out (None) is used as a value only where it was found to be given
     r10_args.check_none_belief(run, [f for f in prog.analysed_functions() if f.name == '__init__' and f.module.short not in ('stdlib/collections',)])
     # dual-mode transl / transl2 behind the validating import: reached only with a vector argument
-    if r20_shapes.check_dual_mode_calls(run, [f for f in prog.analysed_functions() if f.cls is not None]) < 3:
-        run.error('R20: fewer than 3 one-argument transl / transl2 calls in class methods (anchor of the dual-mode rule not found in the current source)')
+    if r20_shapes.check_dual_mode_calls(run, [f for f in prog.analysed_functions() if f.cls is not None]) < 2:
+        run.error('R20: fewer than 2 one-argument transl / transl2 calls in class methods (anchor of the dual-mode rule not found in the current source)')
     run.floor('R4', 40)
     run.floor('R5', 15)
     run.floor('R3', 11)
@@ -373,7 +373,7 @@ def c15(run):
             r8_accessors.check_accessor(run, g)
     r21_explog.check_ctor_forms(run)
     r21_explog.check_exp_dispatch(run)
-    run.floor('R10l', 4)
+    run.floor('R10l', 2)
     r3_ctor.run_r3(run)
     r2_none.run_r2(run, closure(fl, depth=0 if run.tier == 'quick' else 1, prog=prog))
     run.floor('R10a', 60)
